@@ -84,7 +84,11 @@ theorem applyInputPluginsO_eq {ι : Type} (fO : ι → Json → Outcome (Except 
     (f : ι → Json → Except ε Json) (h : ∀ i q, fO i q = .ok (f i q)) (ps : List ι) (q : Json) :
     applyInputPluginsO (ps.map fO) q = .ok (applyInputPlugins (ps.map f) q) := by
   simp only [applyInputPluginsO, applyInputPlugins, applyOpsO_eq fO f h ps]
-  cases applyOps (ps.map f) (.arr [q]) <;> rfl
+  cases q.isObject with
+  | false => rfl
+  | true =>
+    simp only [if_true]
+    cases applyOps (ps.map f) (.arr [q]) <;> rfl
 
 end pipeline
 
@@ -436,9 +440,23 @@ theorem jsonArrayFlatten_ok {ε : Type} {s : Json} {qs : List Json}
     · simp [ha] at h
   | _ => simp at h
 
+/-- a query that passes input processing is an object -/
+theorem prepT_ok_isObject {plugins : List Plugin} {q : Json} {qs : List Json}
+    (h : prepT plugins q = .ok qs) : q.isObject = true := by
+  cases ho : q.isObject with
+  | true => rfl
+  | false => simp [prepT, applyInputPlugins, ho] at h
+
+/-- … and one that is not an object is answered with the error response that echoes it -/
+theorem prepT_non_object (plugins : List Plugin) (q : Json) (h : q.isObject = false) :
+    prepT plugins q = .error (.obj [("request", q), ("error", .str "UnexpectedQueryStructure")]) := by
+  simp [prepT, applyInputPlugins, h, errorResponse]
+
 theorem prepT_ok_itemwise (plugins : List Plugin) (q : Json) (qs : List Json)
     (h : prepT plugins q = .ok qs) : itemwise (plugins.map processT) [q] = qs.map .ok := by
+  have ho := prepT_ok_isObject h
   unfold prepT applyInputPlugins at h
+  simp only [ho, if_true] at h
   cases ha : applyOps (plugins.map processT) (.arr [q]) with
   | error e => simp [ha] at h
   | ok s =>
@@ -450,6 +468,162 @@ theorem prepT_ok_itemwise (plugins : List Plugin) (q : Json) (qs : List Json)
       subst h
       obtain ⟨rfl, hall⟩ := jsonArrayFlatten_ok hf
       exact applyOps_itemwise _ _ _ ha hall
+
+/-! ### plugins that keep the query state an array of objects -/
+
+/-- on an object, the plugin answers with an object or a non-empty array of objects (or fails) -/
+def ObjOp (op : Json → Except PErr Json) : Prop :=
+  ∀ q r, q.isObject = true → op q = .ok r →
+    r.isObject = true ∨ ∃ xs, r = .arr xs ∧ xs ≠ [] ∧ xs.all Json.isObject = true
+
+theorem expand1_objects {r : Json}
+    (h : r.isObject = true ∨ ∃ xs, r = .arr xs ∧ xs ≠ [] ∧ xs.all Json.isObject = true) :
+    expand1 r ≠ [] ∧ (expand1 r).all Json.isObject = true := by
+  rcases h with h | ⟨xs, rfl, h1, h2⟩
+  · cases r <;> simp_all [expand1, Json.isObject]
+  · exact ⟨h1, h2⟩
+
+theorem mapOp_objects {op : Json → Except PErr Json} (hop : ObjOp op) :
+    ∀ (items rs : List Json), items.all Json.isObject = true → mapOp op items = .ok rs →
+      (rs.flatMap expand1).all Json.isObject = true ∧ (items ≠ [] → rs.flatMap expand1 ≠ [])
+  | [], rs, _, h => by
+    simp only [mapOp, Except.ok.injEq] at h
+    subst h; simp
+  | q :: r, rs, hall, h => by
+    simp only [List.all_cons, Bool.and_eq_true] at hall
+    simp only [mapOp] at h
+    cases hq : op q with
+    | error e => simp [hq] at h
+    | ok q' =>
+      simp only [hq] at h
+      cases hr : mapOp op r with
+      | error e => simp [hr] at h
+      | ok r' =>
+        simp only [hr, Except.ok.injEq] at h
+        subst h
+        obtain ⟨h1, h2⟩ := expand1_objects (hop q q' hall.1 hq)
+        obtain ⟨ih1, _⟩ := mapOp_objects hop r r' hall.2 hr
+        refine ⟨by simp [List.flatMap_cons, List.all_append, h2, ih1], fun _ => ?_⟩
+        simp only [List.flatMap_cons]
+        intro hnil
+        exact h1 (List.append_eq_nil_iff.mp hnil).1
+
+/-- under object-preserving plugins the state stays a non-empty array of objects -/
+theorem applyOps_objects : ∀ (ops : List (Json → Except PErr Json)), (∀ op ∈ ops, ObjOp op) →
+    ∀ (items : List Json) (s : Json), items.all Json.isObject = true → items ≠ [] →
+      applyOps ops (.arr items) = .ok s →
+      ∃ final, s = .arr final ∧ final.all Json.isObject = true ∧ final ≠ []
+  | [], _, items, s, hall, hne, h => by
+    simp only [applyOps, Except.ok.injEq] at h
+    subst h; exact ⟨items, rfl, hall, hne⟩
+  | op :: ops, hops, items, s, hall, hne, h => by
+    simp only [applyOps, jsonArrayOp] at h
+    cases hm : mapOp op items with
+    | error e => simp [hm] at h
+    | ok rs =>
+      simp only [hm, flattenInPlace_arr] at h
+      obtain ⟨h1, h2⟩ := mapOp_objects (hops op (by simp)) items rs hall hm
+      exact applyOps_objects ops (fun o ho => hops o (by simp [ho])) _ s h1 (h2 hne) h
+
+theorem mapOp_error {ε : Type} {op : Json → Except ε Json} : ∀ {items : List Json} {pe : PipeErr ε},
+    mapOp op items = .error pe → ∃ x e, x ∈ items ∧ op x = .error e ∧ pe = .plugin x e
+  | [], pe, h => by simp [mapOp] at h
+  | q :: r, pe, h => by
+    simp only [mapOp] at h
+    cases hq : op q with
+    | error e =>
+      simp only [hq, Except.error.injEq] at h
+      exact ⟨q, e, by simp, hq, h.symm⟩
+    | ok q' =>
+      simp only [hq] at h
+      cases hr : mapOp op r with
+      | ok r' => simp [hr] at h
+      | error e =>
+        simp only [hr, Except.error.injEq] at h
+        subst h
+        obtain ⟨x, e', hx, h1, h2⟩ := mapOp_error hr
+        exact ⟨x, e', by simp [hx], h1, h2⟩
+
+/-- the only way the plugin stage fails on an array state: some plugin fails on some query of the state the
+earlier plugins produced — and the error names exactly that query -/
+theorem applyOps_error : ∀ (ops : List (Json → Except PErr Json)) (items : List Json)
+    (pe : PipeErr PErr), applyOps ops (.arr items) = .error pe →
+    ∃ pre op post xs x e, ops = pre ++ op :: post ∧ applyOps pre (.arr items) = .ok (.arr xs) ∧
+      x ∈ xs ∧ op x = .error e ∧ pe = .plugin x e
+  | [], items, pe, h => by simp [applyOps] at h
+  | op :: ops, items, pe, h => by
+    simp only [applyOps, jsonArrayOp] at h
+    cases hm : mapOp op items with
+    | error e =>
+      simp only [hm, Except.error.injEq] at h
+      subst h
+      obtain ⟨x, e', hx, h1, h2⟩ := mapOp_error hm
+      exact ⟨[], op, ops, items, x, e', rfl, rfl, hx, h1, h2⟩
+    | ok rs =>
+      simp only [hm, flattenInPlace_arr] at h
+      obtain ⟨pre, op', post, xs, x, e, h1, h2, h3, h4, h5⟩ := applyOps_error ops _ pe h
+      refine ⟨op :: pre, op', post, xs, x, e, by simp [h1], ?_, h3, h4, h5⟩
+      simp only [applyOps, jsonArrayOp, hm, flattenInPlace_arr, h2]
+
+/-- every built-in plugin keeps objects objects (grid search: an object, or its non-empty expansion) -/
+theorem processT_objOp (p : Plugin) (hp : ∀ t, p ≠ .table t) : ObjOp (processT p) := by
+  intro q r ho h
+  cases p with
+  | gridSearch =>
+    simp only [processT] at h
+    cases hg : GridSearch.process q with
+    | error e => simp [hg] at h
+    | ok v =>
+      simp only [hg, Except.ok.injEq] at h
+      subst h
+      unfold GridSearch.process at hg
+      cases hpl : GridSearch.plan q with
+      | error e => simp [hpl] at hg
+      | ok o =>
+        cases o with
+        | none => simp only [hpl, Except.ok.injEq] at hg; subst hg; exact Or.inl ho
+        | some pl =>
+          obtain ⟨kvs, sec, hgq, _, hax, hi⟩ := GridSearch.plan_wf hpl
+          simp only [hpl, hi, Except.ok.injEq] at hg
+          subst hg
+          right
+          refine ⟨_, rfl, ?_, by simp [GridSearch.expand, Json.isObject]⟩
+          obtain ⟨_, h2⟩ := GridSearch.degenerate_false hgq.notDegenerate
+          have hpos : 0 < MultiSet.prod (pl.axes.map (·.2.length)) := by
+            apply MultiSet.prod_pos
+            intro n hn
+            obtain ⟨a, ha, rfl⟩ := List.mem_map.mp hn
+            rw [hax] at ha
+            exact List.length_pos_iff.mpr (h2 a ha)
+          intro hnil
+          have := congrArg List.length hnil
+          simp only [GridSearch.expand, List.length_map, MultiSet.combos_length, List.length_nil] at this
+          omega
+  | inject key value overwrite =>
+    simp only [processT] at h
+    cases hg : injectGuard key overwrite q with
+    | some e => simp [hg] at h
+    | none =>
+      simp only [hg] at h
+      cases q <;> simp at h
+      subst h; exact Or.inl rfl
+  | lbNumeric col fmt =>
+    simp only [processT] at h
+    cases hc : customWeight (.lbNumeric col fmt) q with
+    | error e => simp [hc] at h
+    | ok b =>
+      simp only [hc, addWeight] at h
+      cases q <;> simp at h
+      subst h; exact Or.inl rfl
+  | lbCategorical col m d fmt =>
+    simp only [processT] at h
+    cases hc : customWeight (.lbCategorical col m d fmt) q with
+    | error e => simp [hc] at h
+    | ok b =>
+      simp only [hc, addWeight] at h
+      cases q <;> simp at h
+      subst h; exact Or.inl rfl
+  | table t => exact absurd rfl (hp t)
 
 /-! ### worker interleavings -/
 
